@@ -45,6 +45,10 @@ THEOREMS = [
     "Canopen.C07.BU.segment_abort_raises",
     "Canopen.C07.BU.end_abort_raises",
     "Canopen.C07.BU.between_idle",
+    "Canopen.C07.BU.block_upload_lost_ok_exact",
+    "Canopen.C07.BU.block_upload_lost_segment_repaired",
+    "Canopen.C07.BU.late_dup_instances",
+    "Canopen.C07.BU.deferred_dup_counterexample",
 ]
 FINGERPRINT = c01.FINGERPRINT + c02.FINGERPRINT + [
     "canopen.sdo.client:BlockDownloadStream",
@@ -63,7 +67,12 @@ ASSUMPTIONS = [
     "expected, is indistinguishable by the protocol from the real one (no toggle, no sequence id) and is not "
     "generated; duplicated acknowledges (explicit in the property) are, and are open findings; the wrong-toggle / "
     "wrong-specifier / wrong-multiplexer kinds are applied to the command responses (initiate, acknowledge, end), "
-    "not to block-upload data segments, which have none of these fields",
+    "not to block-upload data segments, which have none of these fields; a stale block-upload segment frame that "
+    "carries exactly the sequence number the client waits for is indistinguishable from the real segment and is "
+    "not generated (the stale segment of the bdist ops carries another number); the same holds for a duplicate of "
+    "the first segment of a sub-block that arrives only after the acknowledge of that sub-block (sequence numbers "
+    "restart at 1 with every sub-block): without CRC it is accepted (closed instance BU.deferred_dup_counterexample); "
+    "generated only for transfers with CRC negotiated, where it is caught",
     "block ops: during a transfer the server's own time-out never fires before the client's; between two "
     "transfers it does (a block transfer left open is aborted by the server with 0x05040000)",
 ]
@@ -347,13 +356,16 @@ LEVEL_TEXT = ("Library client against the library's own server: a download that 
               "both streams, in every state, a response that does not arrive is followed by the abort frame 0x05040000 "
               "and SdoCommunicationError, an abort frame raises SdoAbortedError with its code; a block download that "
               "returns normally after a lost response / abort frame / wrong command specifier at ANY response index has "
-              "committed exactly the payload (closed counterexample for a duplicated acknowledge: open finding); after "
+              "committed exactly the payload (closed counterexample for a duplicated acknowledge: open finding); a "
+              "block upload that returns normally after a lost response at ANY index (anything queued beforehand, CRC "
+              "or not) returns exactly the server's value, and a lost segment is repaired; after "
               "the server has gone idle again a following block download commits exactly its payload whatever queue and "
               "server record were left behind")
 LEVEL_NOTE = ("trusted: Lean kernel + standard axioms; disturbances act on the response queue only; real time-outs and "
               "threads are outside the model; a stale response identical in specifier/toggle/multiplexer to the "
               "expected one is indistinguishable by the protocol and excluded; block transfers: theorems (a), (b) are "
               "local to each wait (all states, all environments), (c) is partial (false for duplicated acknowledges), "
-              "block uploads with a disturbed segment stream fall under the open re-synchronisation finding of C13; "
+              "(c) for block uploads is proved for lost responses; late / duplicated / stale segment frames are "
+              "covered by the differential run and the oracle only (repaired, or an SDO error; never wrong data); "
               "a following block upload is covered by the differential run only")
 TECHNIQUE = "Lean 4 proof (frame-sequence determinism of the client, invariant under disturbance schedules) + differential correspondence"
